@@ -470,38 +470,100 @@ def do_op(proc, op):
     raise AssertionError(op)
 
 
-def in_domain(op, param, arrays):
-    """Is the batch op inside the quantifier of the property (all names bound to existing registers, names
-    pairwise distinct ignoring case, values of the register's type)?"""
+def domain_of(op, param, arrays):
+    """Where a batch op lies relative to the quantifier of the property:
+    'in'        all names bound to existing registers, pairwise distinct ignoring case, values of the register's type;
+    'repeat'    as 'in' but some parameter is named twice (in different spellings);
+    'mgr-error' an unknown name and/or a float for a Par (the two errors AdwinProcess itself raises), everything else as 'in'/'repeat';
+    None        anything else (registers that do not exist, float into an integer array, ...)."""
     kind = op[0]
     if kind == "mget":
         names, vals = list(op[1]), None
     elif kind == "mset":
         names, vals = [n for n, _ in op[1]], [v for _, v in op[1]]
-    elif kind == "startwp":
-        kw = dict(op[1])
-        if len({k.lower() for k in kw}) != len(kw):
-            return False
-        names = list(param.keys())
-        vals = [next((kw[k] for k in kw if k.lower() == n.lower()), 0) for n in names]
     else:
-        return False
-    if len({n.lower() for n in names}) != len(names):
-        return False
+        return None
+    bad = False
     for i, n in enumerate(names):
         d = lookup_ci(param, n)
-        if d is None or not reg_valid(d, arrays):
-            return False
+        if d is None:
+            bad = True
+            continue
+        if not reg_valid(d, arrays):
+            return None
         if vals is not None:
             t = type(d).__name__
             v = vals[i]
             if isinstance(v, bool) or not isinstance(v, (int, float)):
-                return False
+                return None
             if t == "ParDesc" and not isinstance(v, int):
-                return False
+                bad = True
             if t == "ArrayElemDesc" and arrays[d.data_index][1] and not isinstance(v, int):
-                return False
-    return True
+                return None
+    if bad:
+        return "mgr-error"
+    if len({n.lower() for n in names}) != len(names):
+        return "repeat"
+    return "in"
+
+
+def in_domain(op, param, arrays):
+    return domain_of(op, param, arrays) == "in"
+
+
+def oracle_batch_outside(proc, lib: FakeADwinLib, op, param, arrays, pre_snap, raw, dom):
+    """`batch_get_any_names` and the error halves of `batch_set_eq_single` / `batch_get_eq_single`, evaluated on the real
+    accessors.  Leaves `lib` in the post-batch state.  Returns (clause, detail) or None."""
+    post = lib.snapshot()
+    touched = lib.touched()
+    keep_log = lib.log
+    cls = class_of(op, param)
+    names = list(op[1]) if op[0] == "mget" else [n for n, _ in op[1]]
+    try:
+        lib.restore(pre_snap)
+        lib.log = []
+        single, single_exc = {}, None
+        try:
+            if op[0] == "mget":
+                for n in names:
+                    single[n] = proc.get_par(n)
+            else:
+                for n, v in op[1]:
+                    proc.set_par(n, v)
+        except Exception as e:  # noqa
+            single_exc = e
+        single_post = lib.snapshot()
+        batch_exc = raw if isinstance(raw, BaseException) else None
+        if dom == "mgr-error":
+            if batch_exc is None:
+                return f"batch-{op[0]}:no-error-where-one-at-a-time-raises:{cls}", repr(single_exc)[:120]
+            if single_exc is None or type(single_exc) is not type(batch_exc):
+                return f"batch-{op[0]}:other-exception-than-one-at-a-time:{cls}", f"{batch_exc!r} vs {single_exc!r}"[:200]
+            if post[0] != single_post[0] or post[1] != single_post[1]:
+                return f"batch-{op[0]}:error-path-par-fpar-differ-from-one-at-a-time:{cls}", str(op)[:200]
+            if post[2] != pre_snap[2]:
+                return f"batch-{op[0]}:error-path-array-element-written:{cls}", str(op)[:200]
+            return None
+        # dom == 'repeat', batch read
+        if batch_exc is not None or single_exc is not None:
+            return f"batch-{op[0]}:raises-on-repeated-spelling:{cls}", f"{batch_exc!r} / {single_exc!r}"[:200]
+        if post != pre_snap:
+            return f"batch-get:modifies-registers:{cls}", ""
+        for k, v in raw.items():
+            if k not in single:
+                return f"batch-get:returns-a-name-not-asked-for:{cls}", k
+            if num(v) != num(single[k]) or type(v) is not type(single[k]):
+                return f"batch-get:returned-value-differs:{cls}", f"{k}: {v!r} vs {single[k]!r}"
+        got = {show_desc(lookup_ci(param, k)) for k in raw}
+        want = {show_desc(lookup_ci(param, n)) for n in names}
+        if got != want:
+            return f"batch-get:requested-register-not-returned:{cls}", f"{sorted(want - got)}"
+        if touched != want:
+            return f"batch-get:touch-set-wrong:{cls}", f"{sorted(touched ^ want)[:4]}"
+        return None
+    finally:
+        lib.log = keep_log
+        lib.restore(post)
 
 
 def class_of(op, param):
@@ -839,7 +901,14 @@ def run_device_ops(param_info, types: dict, ops, res: Result | None, fails: list
         if op[0] == "startwp" and isinstance(raw, list):
             # judged as the batch write it performs (the zero-fill policy itself is not part of the property)
             oop = ("mset", raw)
-        if oop[0] in ("mget", "mset") and in_domain(oop, param_info.param, arrays):
+        dom = domain_of(oop, param_info.param, arrays) if oop[0] in ("mget", "mset") else None
+        if dom == "mgr-error" or (dom == "repeat" and oop[0] == "mget"):
+            bad = oracle_batch_outside(proc, lib, oop, param_info.param, arrays, pre, raw, dom)
+            if count:
+                count("batch_ops_outside_domain_" + dom)
+            if bad:
+                fails.append((bad[0], bad[1], op))
+        elif dom in ("in", "repeat"):      # a batch write with repeated spellings is covered by batch_set_eq_single as it stands
             exc = raw if isinstance(raw, BaseException) else None
             bad = oracle_batch(proc, lib, oop, param_info.param, arrays, pre, raw, exc)
             if count:
